@@ -38,7 +38,7 @@ impl GenOpts {
     }
     pub fn full() -> GenOpts {
         GenOpts { max_helpers: 5, max_params: 6, depth: 4, lets: true, assign: true, lambda: true, rest: true, fnval: true, macros: true,
-            defconst: false, nested_mod: false, at_patterns: true, all_ops: true, big_literals: true, repeat: 0, shadow: 12 }
+            defconst: false, nested_mod: true, at_patterns: true, all_ops: true, big_literals: true, repeat: 0, shadow: 12 }
     }
     /// programs rich in repeated subexpressions
     pub fn cse() -> GenOpts {
@@ -65,6 +65,7 @@ pub struct Gen {
     pub o: GenOpts,
     counter: usize,
     let_depth: usize,
+    mod_depth: usize,
     pool: Vec<(Expr, Vec<String>)>,
 }
 
@@ -73,7 +74,7 @@ const OPS_MORE: &[(u8, usize)] = &[(10, 2), (12, 2), (12, 3), (13, 1), (14, 2), 
 
 impl Gen {
     pub fn new(rng: ChaCha8Rng, o: GenOpts) -> Gen {
-        Gen { rng, o, counter: 0, let_depth: 0, pool: vec![] }
+        Gen { rng, o, counter: 0, let_depth: 0, mod_depth: 0, pool: vec![] }
     }
     /// the name of a new let / assign binder: fresh, or (shadowing) a variable already in scope that this binding
     /// group has not bound yet
@@ -378,6 +379,17 @@ impl Gen {
                 let args: Vec<Expr> = (0..f.nparams).map(|_| sub!()).collect();
                 return Expr::Apply(Box::new(Expr::Var(f.name)), Box::new(Expr::List(args)));
             }
+        }
+        if choice >= 96 && choice < 98 && self.o.nested_mod && self.mod_depth == 0 {
+            // (a (mod (N) body) (list arg)): a program of its own (its body sees its parameter only), with binders
+            self.mod_depth += 1;
+            let x = self.fresh("N");
+            let saved_pool = std::mem::take(&mut self.pool);
+            let body = self.expr(d.min(2), std::slice::from_ref(&x), &[], &[], &[]);
+            self.pool = saved_pool;
+            self.mod_depth -= 1;
+            let inner = Program { args: Pat::list(vec![Pat::Var(x)], Pat::Nil), helpers: vec![], body };
+            return Expr::Apply(Box::new(Expr::Mod(Box::new(inner))), Box::new(Expr::List(vec![sub!()])));
         }
         if choice < 96 && !macros.is_empty() {
             let (m, n) = macros[self.rng.random_range(0..macros.len())].clone();
